@@ -357,10 +357,10 @@ fn mixed_space(ctx: &Ctx, n: usize) {
 /// matrices of order 7..65 - every block size, unrolling factor or size-gated path a solver might have is crossed
 fn large_order_space(ctx: &Ctx) {
     let orders: Vec<usize> = vec![7, 8, 9, 10, 11, 12, 13, 15, 16, 17, 20, 24, 31, 32, 33, 40, 48, 63, 64, 65];
-    let kinds = 6usize;
+    let kinds = 7usize;
     let no = orders.len() as u64;
     ctx.lattice(
-        &format!("f64 orders {:?}: P*L*U with 4 permutation kinds, dominant dense, Hessenberg x 3 right-hand sides", orders),
+        &format!("f64 orders {:?}: P*L*U with 4 permutation kinds, dominant dense, Hessenberg, unit diagonal over a lower part of -1.55..-1.95 with a full last column x 3 right-hand sides", orders),
         no * kinds as u64,
         |idx| format!("n={} kind#{}", orders[(idx / kinds as u64) as usize], idx % kinds as u64),
         |idx, acc| {
@@ -396,6 +396,17 @@ fn large_order_space(ctx: &Ctx) {
                         a[perm[i]][j] = sum;
                     }
                 }
+            } else if kind == 6 {
+                // unit diagonal, strictly lower part between -1.95 and -1.55, full last column: with true partial pivoting every step
+                // exchanges (1.9 > 1) and the multipliers stay below 1; a pivot search that tolerates a diagonal within a factor two
+                // of the largest candidate keeps multipliers of 1.9 and grows the entries like 2.9^n
+                for i in 0..n {
+                    for j in 0..i {
+                        a[i][j] = -(1.55 + 0.1 * ((i * 7 + j * 3) % 5) as f64);
+                    }
+                    a[i][i] = 1.0;
+                    a[i][n - 1] = 1.0;
+                }
             } else if kind == 4 {
                 for i in 0..n {
                     for j in 0..n {
@@ -424,7 +435,7 @@ fn large_order_space(ctx: &Ctx) {
             for b in rhs.iter() {
                 acc.hit("f64 solves (x2 solvers)");
                 let mut local = Acc::new("tmp");
-                let res = catch(|| check_f64(&a, b, kind >= 4, Some(&mut local)));
+                let res = catch(|| check_f64(&a, b, kind == 4 || kind == 5, Some(&mut local)));
                 acc.merge_worst(local);
                 let key = || format!("large n={} kind#{} b[0]={}", n, kind, b[0]);
                 match res {
@@ -735,6 +746,114 @@ fn scaled_space(ctx: &Ctx) {
     }
 }
 
+/// One Matrix object used for two systems in a row: solve A1 x = b (either solver; both overwrite the object with their factors),
+/// write A2 into the same object through one of the editors, solve again with either solver: the second answer must solve A2
+/// exactly (rationals) - nothing of the first factorisation may survive in the object. A1, A2 range over all nonsingular 2x2
+/// matrices over {0,1,-1,2} (thorough: also 3x3 over {0,1,-1} with at most 3 deviations from two bases).
+fn reuse_space(ctx: &Ctx) {
+    let letters = vec![r(0), r(1), r(-1), r(2)];
+    let l = letters.len() as u64;
+    let mut mats: Vec<M> = vec![];
+    for idx in 0..pow(l, 4) {
+        let mut dg = vec![0usize; 4];
+        digits_uniform(idx, l, &mut dg);
+        let m: M = vec![vec![letters[dg[0]], letters[dg[1]]], vec![letters[dg[2]], letters[dg[3]]]];
+        if model::det(&m) != Rat::int(0) {
+            mats.push(m);
+        }
+    }
+    let bases3: Vec<M> = vec![
+        vec![vec![r(0), r(1), r(2)], vec![r(1), r(0), r(-1)], vec![r(2), r(1), r(1)]],
+        vec![vec![r(1), r(1), r(0)], vec![r(-1), r(1), r(1)], vec![r(0), r(2), r(1)]],
+        vec![vec![r(2), r(0), r(1)], vec![r(0), r(-1), r(1)], vec![r(1), r(1), r(0)]],
+    ];
+    for b3 in &bases3 {
+        if model::det(b3) != Rat::int(0) {
+            mats.push(b3.clone());
+        }
+    }
+    let nm = mats.len() as u64;
+    const PATHS: u64 = 6;
+    ctx.lattice(
+        &format!("one Matrix object, two systems: {} nonsingular matrices (2x2 over {{0,1,-1,2}}, three 3x3) as first and second system of equal order x 2 first solvers x 6 rewriting paths (set_row, set_col, IndexMut, fill + IndexMut, set_row of the transpose + transpose_in_place, resize to 0x0 and back) x 2 second solvers", nm),
+        nm * nm,
+        |idx| format!("A1#{} A2#{}", idx / nm, idx % nm),
+        |idx, acc| {
+            let (a1, a2) = (&mats[(idx / nm) as usize], &mats[(idx % nm) as usize]);
+            let n = a1.len();
+            if a2.len() != n {
+                return;
+            }
+            acc.nontriv("matrix object reused for a second system");
+            let b: Vec<Rat> = (0..n).map(|i| r([1, -2, 3][i % 3])).collect();
+            let bv = model::to_vector(&b);
+            for first in 0..2usize {
+                for path in 0..PATHS {
+                    for second in 0..2usize {
+                        let key = || format!("reuse A1={} A2={} first={} path={} second={}", model::show(a1), model::show(a2), ["solve_basic", "solve_lu"][first], path, ["solve_basic", "solve_lu"][second]);
+                        let res = catch(|| -> Result<(), String> {
+                            let mut m = model::to_matrix(a1, n);
+                            let x1 = if first == 0 { m.solve_basic(&bv) } else { m.solve_lu(&bv) };
+                            ensure!(model::matvec(a1, &x1.vec) == b, "first solve wrong: x = {}", model::showv(&x1.vec));
+                            match path {
+                                0 => {
+                                    for i in 0..n {
+                                        m.set_row(i, Vector::create(a2[i].clone()));
+                                    }
+                                }
+                                1 => {
+                                    for j in 0..n {
+                                        m.set_col(j, Vector::create((0..n).map(|i| a2[i][j]).collect()));
+                                    }
+                                }
+                                2 => {
+                                    for i in 0..n {
+                                        for j in 0..n {
+                                            m[(i, j)] = a2[i][j];
+                                        }
+                                    }
+                                }
+                                3 => {
+                                    m.fill(Rat::int(0));
+                                    for i in 0..n {
+                                        for j in 0..n {
+                                            if a2[i][j] != Rat::int(0) {
+                                                m[(i, j)] = a2[i][j];
+                                            }
+                                        }
+                                    }
+                                }
+                                4 => {
+                                    for i in 0..n {
+                                        m.set_row(i, Vector::create((0..n).map(|j| a2[j][i]).collect()));
+                                    }
+                                    m.transpose_in_place();
+                                }
+                                _ => {
+                                    m.resize(0, 0);
+                                    m.resize(n, n);
+                                    for i in 0..n {
+                                        m.set_row(i, Vector::create(a2[i].clone()));
+                                    }
+                                }
+                            }
+                            ensure!(m == model::to_matrix(a2, n), "the rewritten object does not hold the second matrix (C03's business): {:?}", m);
+                            let x2 = if second == 0 { m.solve_basic(&bv) } else { m.solve_lu(&bv) };
+                            ensure!(model::matvec(a2, &x2.vec) == b, "the second solve on the same object does not solve the second system: x = {} (first system's solution {})", model::showv(&x2.vec), model::showv(&x1.vec));
+                            Ok(())
+                        });
+                        match res {
+                            Ok(Ok(())) => {}
+                            Ok(Err(e)) => acc.fail(idx, key(), e),
+                            Err(p) => acc.fail(idx, key(), format!("unexpected panic: {}", p)),
+                        }
+                    }
+                }
+            }
+        },
+    );
+}
+
 fn main() {
     let ctx = Ctx::from_args("C01");
     ctx.level("exploration");
@@ -762,6 +881,7 @@ fn main() {
     mixed_space(&ctx, 2);
     mixed_space(&ctx, 3);
     large_order_space(&ctx);
+    reuse_space(&ctx);
     scaled_space(&ctx);
     {
         let letters = z3();
